@@ -123,6 +123,42 @@ def fold_function(fn, ref_names):
                     if isinstance(x, ast.Name):
                         other.add(x.id)
         changed = False
+        # a name bound once to a constant and read once: the constant is
+        # written where it is read, wherever that is (evaluating a constant
+        # has no effect and cannot fail)
+        for blk in _blocks(fn):
+            for i, s in enumerate(list(blk)):
+                if not (isinstance(s, ast.Assign) and len(s.targets) == 1 and
+                        isinstance(s.targets[0], ast.Name) and
+                        isinstance(s.value, ast.Constant)):
+                    continue
+                t = s.targets[0].id
+                if t in ref_names or t in other or loads.get(t, 0) != 1 or \
+                        stores.get(t, 0) != 1:
+                    continue
+                # the read must come after the binding on every path: same
+                # block, later statement (nested blocks included)
+                k = blk.index(s)
+                use = None
+                for later in blk[k + 1:]:
+                    for x in ast.walk(later):
+                        if isinstance(x, ast.Name) and x.id == t and \
+                                isinstance(x.ctx, ast.Load):
+                            use = later
+                if use is None:
+                    continue
+                cval = s.value
+
+                class SubC(ast.NodeTransformer):
+                    def visit_Name(self, n):
+                        if n.id == t and isinstance(n.ctx, ast.Load):
+                            return ast.copy_location(copy.deepcopy(cval), n)
+                        return n
+                SubC().visit(use)
+                blk.remove(s)
+                done += 1
+                changed = True
+                loads[t] = 0
         for blk in _blocks(fn):
             i = 0
             while i + 1 < len(blk):
